@@ -128,10 +128,12 @@ class ViewAlgebra(Lemma):
 
 @register
 class InitProcessingPipeline(Contract):
-    """a backend runs its own pipeline, then the user's, then the output-format pipeline"""
+    """a backend runs its own pipeline, then the user's, then the output-format pipeline; backend options are written into the
+    combined pipeline of THIS backend instance only - never into the class-level backend / format pipelines"""
     id = "C14.Backend.init_processing_pipeline"
     target = "sigma.conversion.base:Backend.init_processing_pipeline"
-    props = ("C14",)
+    props = ("C14", "C15")
+    cases = ("format_pipeline", "no_format_pipeline")
     assumed = ["ProcessingPipeline.__add__ contract (C14.ProcessingPipeline.__add__) used as summary"]
 
     def setup(self, E):
@@ -146,18 +148,24 @@ class InitProcessingPipeline(Contract):
             r = mk_pipeline(I, "sum")
             r.ghost["operands"] = self_obj.ghost.get("operands", [self_obj.ghost.get("name")]) + other.ghost.get("operands", [other.ghost.get("name")])
             r.fields["vars"] = {}
+            r.born = I.ctx
             return r
         E.summaries["sigma.processing.pipeline:ProcessingPipeline.__add__"] = s_add
 
-    def args(self, I):
+    def args(self, I, case):
+        from pyvc.builtins_ import SDefaultDict
         cinfo = I.E.index.lookup("sigma.conversion.base:Backend")
         bp, up, fp = mk_pipeline(I, "backend"), mk_pipeline(I, "user"), mk_pipeline(I, "format")
         for p, n in ((bp, "backend"), (up, "user"), (fp, "format")):
             p.ghost["name"] = n
-        fmt = I.fresh("fmt", "str")
+            p.fields["vars"] = {}
+        ofp = SDefaultDict()
+        ofp.factory = NativeFn("ProcessingPipeline", lambda I2, a, k: fp)      # defaultdict(ProcessingPipeline): an (empty) pipeline for formats without one
+        if case == "format_pipeline":
+            ofp.update({"default": fp, "other": fp})
         me = SObj(cinfo, {"backend_processing_pipeline": bp, "processing_pipeline": SOpt(z3.Bool(I.ctx.fresh_name("no_user_pipeline")), up),
-                          "output_format_processing_pipeline": {"default": fp, "other": fp}, "default_format": "default", "backend_options": {}, "name": "n"}, lazy=True)
-        return {"self": me, "args": [SOpt(z3.Bool(I.ctx.fresh_name("fmt_none")), "other")], "me": me}
+                          "output_format_processing_pipeline": ofp, "default_format": "default", "backend_options": {"opt": "x"}, "name": "n"}, lazy=True)
+        return {"self": me, "args": [SOpt(z3.Bool(I.ctx.fresh_name("fmt_none")), "other")], "me": me, "shared": [bp, up, fp]}
 
     def post(self, I, inp, r):
         p = inp["me"].fields.get("last_processing_pipeline")
@@ -168,6 +176,9 @@ class InitProcessingPipeline(Contract):
             user = I.force(inp["me"].fields["processing_pipeline"])
             want = ["backend"] + (["user"] if user is not None else []) + ["format"]
             I.ctx.require(ops_ == want, f"combined pipeline == backend + user + output-format pipeline, in this order (got {ops_})")
+            I.ctx.require(all(p is not x for x in inp["shared"]) and all(x.fields["vars"] == {} for x in inp["shared"]),
+                          "backend options are written into a pipeline object of this call, not into the shared backend / user / format pipelines")
+            I.ctx.require(p.fields["vars"].get("backend_opt") == "x" and p.fields["vars"].get("backend") == "n", "backend options and name are available as pipeline variables")
 
     def frame_ok(self, I, inp, obj, name):
         return obj is inp["self"] and name == "last_processing_pipeline"
